@@ -213,6 +213,86 @@ def sym_roundtrips(res, rng, tier):
     res["worst_roundtrip_error"] = worst
 
 
+def time_dependent_roundtrips(res, rng, tier):
+    """an explicitly time-dependent additional force: schemes that evaluate the force at the midpoint of the step in time
+    (LEAPFROG, WHFast) retrace their steps, which they do only if the clock seen by the force is the mirrored one on the way back"""
+    worst = {}
+    for name, opt in (("leapfrog", None), ("whfast", "jacobi"), ("whfast", "democraticheliocentric")):
+        for rep in range(2 if tier == "quick" else 6):
+            sim = rebound.Simulation()
+            sim.add(m=1.0)
+            sim.add(m=1e-3, a=1.0, e=0.1 * rng.random(), f=rng.uniform(0, 6), inc=0.1)
+            sim.add(m=3e-4, a=2.2, e=0.1 * rng.random(), f=rng.uniform(0, 6))
+            sim.move_to_com()
+            sim.integrator = name
+            sim.dt = 0.02
+            if opt:
+                sim.ri_whfast.coordinates = opt
+            sim.t = rng.choice([0.0, 3.7])
+
+            def af(sp_):
+                s_ = sp_.contents
+                for q in range(1, s_.N):
+                    pp = s_.particles[q]
+                    pp.ax += 0.3 * math.sin(3.0 * s_.t + q)
+                    pp.ay += 0.2 * math.cos(2.0 * s_.t)
+            sim.additional_forces = af
+            s0 = [(p.x, p.y, p.z, p.vx, p.vy, p.vz) for p in sim.particles]
+            n = 50
+            sim.steps(n)
+            moved = max(abs(a - b) for p, q in zip(s0, [(p.x, p.y, p.z, p.vx, p.vy, p.vz) for p in sim.particles]) for a, b in zip(p, q))
+            sim.dt = -sim.dt
+            sim.steps(n)
+            err = max(abs(a - b) for p, q in zip(s0, [(p.x, p.y, p.z, p.vx, p.vy, p.vz) for p in sim.particles]) for a, b in zip(p, q))
+            sim._additional_forces = type(sim._additional_forces)()
+            key = name + (":" + opt if opt else "") + " + time-dependent force"
+            worst[key] = max(worst.get(key, 0.0), err)
+            if not err <= 1e-10 or not moved > 1e-3:
+                res["violations"].append({"kind": "symmetric-roundtrip", "scheme": key, "steps": n, "error": err, "moved": moved})
+    res["worst_roundtrip_error"].update(worst)
+
+
+def janus_removal(res, rng, tier):
+    """JANUS keeps its state on an integer grid: when the particle number changes the grid copy is rebuilt from the particles, so a
+    run from which a particle was removed continues bit for bit like a fresh JANUS simulation started from the same particles"""
+    n = 0
+    for order in (2, 4, 6, 8, 10):
+        for sp_e in (-40, -30):
+            for which in ("none", "last", "middle", "first-planet"):
+                sp = sv = 2.0 ** sp_e
+                sim = rebound.Simulation()
+                sim.integrator = "janus"
+                sim.ri_janus.order = order
+                sim.ri_janus.scale_pos = sp
+                sim.ri_janus.scale_vel = sv
+                sim.dt = 0.01
+                sim.add(m=1.0)
+                for i in range(1, 5):
+                    sim.add(m=10 ** rng.uniform(-6, -3), a=1.0 + 0.6 * i, e=rng.uniform(0, 0.2), inc=rng.uniform(0.0, 0.3), f=rng.uniform(0, 6))
+                sim.move_to_com()
+                sim.steps(5)
+                if which != "none":
+                    sim.remove({"last": sim.N - 1, "middle": 2, "first-planet": 1}[which])
+                fresh = rebound.Simulation()
+                fresh.integrator = "janus"
+                fresh.ri_janus.order = order
+                fresh.ri_janus.scale_pos = sp
+                fresh.ri_janus.scale_vel = sv
+                fresh.dt = sim.dt
+                fresh.t = sim.t
+                for p in sim.particles:
+                    fresh.add(m=p.m, x=p.x, y=p.y, z=p.z, vx=p.vx, vy=p.vy, vz=p.vz)
+                sim.steps(5)
+                fresh.steps(5)
+                n += 1
+                if bits(sim) != bits(fresh):
+                    a = struct.unpack("%dd" % (6 * sim.N), bits(sim))
+                    b = struct.unpack("%dd" % (6 * fresh.N), bits(fresh))
+                    res["violations"].append({"kind": "janus-removal", "order": order, "scale": "2^%d" % sp_e, "removed": which,
+                                              "max_difference": max(abs(x - y) for x, y in zip(a, b))})
+    res["janus_removals"] = n
+
+
 def main():
     rows_file, out, seed, tier = sys.argv[1], sys.argv[2], int(sys.argv[3]), sys.argv[4]
     rng = random.Random(seed)
@@ -224,6 +304,8 @@ def main():
     order2_replay(rows, res)
     janus_roundtrips(res, rng, tier)
     sym_roundtrips(res, rng, tier)
+    time_dependent_roundtrips(res, rng, tier)
+    janus_removal(res, rng, tier)
     json.dump(res, open(out, "w"))
 
 
